@@ -244,6 +244,11 @@ def run(tier: str) -> int:
     worlds.append(C10Src(mode="unack", closure=True, size=4, seg=2, variant="late", prefix=eof_wait))
     for mode in ("ack", "unack"):
         worlds.append(C10Src(mode=mode, closure=True, size=4, seg=2, ack_limit=2))
+    # modular checksum over all-ones content of 5 bytes: the word sum passes 2^32 when the zero-padded tail is added, so an arithmetic
+    # error in the checksum (struct.error / OverflowError) would leave the state machine as a non-protocol exception
+    for mode in ("ack", "unack"):
+        worlds.append(C10Dst(mode=mode, nak="imm", closure=False, size=5, seg=2, cks="mod", zero="ff", ack_limit=2, nak_limit=2, check_limit=2, variant="fd"))
+        worlds.append(C10Src(mode=mode, closure=True, size=5, seg=4, cks="mod", zero="ff", ack_limit=2, variant="late", prefix=[("put", "valid"), ("tick",)]))
     run_.bounds = {"depth": depth, "depth_from_late_states": depth + 3, "alphabet_sizes": [len(w.alphabet) for w in worlds]}
     for w in worlds:
         if run_.found_something():
